@@ -13,13 +13,16 @@ import (
 var valuePool = []string{"ONE", "one", "One", "TWO", "two", " x ", "x", "attack", "ATTACK 1", "Attack  two", "5", "12", "0", "",
 	"select 1", "SELECT", "  padded  ", "a b", "x", "y", "one two", "7", "%41", "a+b"}
 
-var namePool = []string{"a", "b", "c", "d", "e", "f", "g", "h"}
+var namePool = []string{"a", "b", "c", "d", "e", "f", "g", "h", "token", "tok2"}
 
 func genValue(r *rand.Rand) string { return valuePool[r.Intn(len(valuePool))] }
 
 func caseVariant(r *rand.Rand, n string) string {
-	if r.Intn(4) == 0 {
+	switch r.Intn(8) {
+	case 0, 1:
 		return strings.ToUpper(n)
+	case 2:
+		return strings.ToUpper(n[:1]) + n[1:] // Token
 	}
 	return n
 }
@@ -64,6 +67,17 @@ func genRequest(r *rand.Rand, cj *caseJSON) {
 		cj.Get = append(cj.Get, [2]string{"a", "1"}, [2]string{"a", "2"}, [2]string{"A", "3"})
 		cj.Post = append(cj.Post, [2]string{"a", "1"}, [2]string{"a", "2"}, [2]string{"A", "3"})
 	}
+	// names differing only in case, within and across GET/POST (they share one bucket of the collection)
+	if r.Intn(4) == 0 {
+		vs := [][2]string{{"Token", "1"}, {"token", "2"}, {"TOKEN", "one"}, {"tOken", "attack"}, {"Tok2", "x"}, {"tok2", "ONE"}}
+		r.Shuffle(len(vs), func(i, j int) { vs[i], vs[j] = vs[j], vs[i] })
+		k := 2 + r.Intn(3)
+		cj.Get = append(cj.Get, vs[:k]...)
+		if len(cj.Post) > 0 || r.Intn(2) == 0 {
+			r.Shuffle(len(vs), func(i, j int) { vs[i], vs[j] = vs[j], vs[i] })
+			cj.Post = append(cj.Post, vs[:1+r.Intn(3)]...)
+		}
+	}
 	hs := [][2]string{{"X-One", "One"}, {"x-one", "TWO"}, {"Y", "ONE"}, {"X-Attack", "attack"}, {"Z", " x "}, {"y", "5"}}
 	nh := r.Intn(len(hs) + 1)
 	cj.Headers = append(cj.Headers, hs[:nh]...)
@@ -99,9 +113,15 @@ func multiTargetPool(phase int) []targetJ {
 		{Var: "ARGS", Key: "a"}, {Var: "ARGS", Key: "b"}, {Var: "ARGS_GET"}, {Var: "ARGS_GET"}, {Var: "ARGS_GET", Key: "a"}, {Var: "ARGS_GET", Excl: []string{"a"}},
 		{Var: "ARGS_NAMES"}, {Var: "ARGS_NAMES", Key: "a"}, {Var: "ARGS_GET_NAMES"}, {Var: "REQUEST_HEADERS"}, {Var: "REQUEST_HEADERS"}, {Var: "REQUEST_HEADERS", Key: "x-one"},
 		{Var: "REQUEST_HEADERS_NAMES"}, {Var: "REQUEST_HEADERS", Excl: []string{"y"}},
+		// regex keys and string keys over names / values, with case-variant names in the request
+		{Var: "ARGS_NAMES", Rx: "^tok"}, {Var: "ARGS_GET_NAMES", Rx: "^tok"}, {Var: "ARGS_GET_NAMES", Rx: "^t"}, {Var: "ARGS_NAMES", Rx: "^a"},
+		{Var: "ARGS", Rx: "^tok"}, {Var: "ARGS_GET", Rx: "^a"}, {Var: "ARGS", Rx: "^[a-c]"}, {Var: "REQUEST_HEADERS_NAMES", Rx: "^x-"}, {Var: "REQUEST_HEADERS", Rx: "^x-o"},
+		{Var: "ARGS_NAMES", Key: "token"}, {Var: "ARGS_GET_NAMES", Key: "token"}, {Var: "ARGS", Key: "token"}, {Var: "REQUEST_HEADERS_NAMES", Key: "x-one"},
+		{Var: "ARGS_NAMES", Rx: "^tok", Excl: []string{"tok2"}},
 	}
 	if phase >= 2 {
-		p = append(p, targetJ{Var: "ARGS_POST"}, targetJ{Var: "ARGS_POST"}, targetJ{Var: "ARGS_POST", Key: "a"}, targetJ{Var: "ARGS_POST_NAMES"}, targetJ{Var: "ARGS_POST", Excl: []string{"b"}})
+		p = append(p, targetJ{Var: "ARGS_POST"}, targetJ{Var: "ARGS_POST"}, targetJ{Var: "ARGS_POST", Key: "a"}, targetJ{Var: "ARGS_POST_NAMES"}, targetJ{Var: "ARGS_POST", Excl: []string{"b"}},
+			targetJ{Var: "ARGS_POST_NAMES", Rx: "^t"}, targetJ{Var: "ARGS_POST_NAMES", Rx: "^tok"}, targetJ{Var: "ARGS_POST", Rx: "^tok"})
 	}
 	return p
 }
@@ -126,6 +146,11 @@ func genOp(r *rand.Rand, l *linkJ, numeric bool) {
 		return
 	}
 	lits := []string{"one", "two", "attack", "x", "a", "select", "ONE", "1", "o"}
+	// operators that distinguish the case of a reported NAME
+	isNames := len(l.Targets) > 0 && (strings.HasSuffix(l.Targets[0].Var, "_NAMES") || l.Targets[0].Rx != "")
+	if isNames && r.Intn(3) > 0 {
+		lits = []string{"T", "Token", "token", "TOKEN", "A", "a", "X-One", "x-", "Tok", "t", "K"}
+	}
 	switch r.Intn(10) {
 	case 0, 1, 2:
 		l.Op = "rxdot"
